@@ -8,3 +8,6 @@ func SetMapOrder(ctl uintptr, seed uint32) {}
 func SetNow(sec int64)                     {}
 func NowCalls() int64                      { return 0 }
 func EnvCalls() int64                      { return 0 }
+func IOCalls() int64                       { return 0 }
+
+const IOSeam = false
